@@ -25,6 +25,7 @@ type PropSpec struct {
 	Funcs       []string `json:"funcs"`       // short keys, trailing * allowed
 	Kinds       []string `json:"kinds"`       // obligation kinds / "kind/label-prefix"; empty = all
 	Exclude     []string `json:"exclude"`     // function keys excluded from wildcard expansion
+	ExcludeK    []string `json:"exclude_kinds"` // obligations (kind or kind/label-prefix) belonging to other properties
 	Assumptions []string `json:"assumptions"` // stated, unchecked assumptions
 	Bounded     []struct {
 		Name  string `json:"name"`
@@ -242,7 +243,7 @@ func runCheck(prop, tier string, seed int) int {
 			callees[k] = true
 		}
 		for _, o := range r.res {
-			if !o.O.Cover && !kindMatches(ps.Kinds, o.O) {
+			if !o.O.Cover && (!kindMatches(ps.Kinds, o.O) || (len(ps.ExcludeK) > 0 && kindMatches(ps.ExcludeK, o.O))) {
 				continue
 			}
 			solverTime += o.Time
